@@ -102,17 +102,17 @@ const c15Batch = 200
 
 func c15Sizes(tier string) (exhaustive, pairsFull, random int) {
 	if tier == "thorough" {
-		return c15Count(7), c15Count(4), 40000
+		return c15Count(8), c15Count(5), 400000
 	}
-	return c15Count(5), c15Count(3), 4000
+	return c15Count(6), c15Count(4), 20000
 }
 
 func init() {
 	fw.Register(&fw.Prop{
 		ID:    "C15",
 		Level: "exploration",
-		Rule: "exhaustive: every string of length <= 5 (thorough 7) over {a < > space tab CR LF é} as a text run, neighbour pair rotating over 16 left x 12 right neighbour kinds (five / two of them blocks that are not rendered and begin or end with a comment); every string of " +
-			"length <= 3 (thorough 4) between every neighbour pair; seeded longer runs with 中 and 😀; 25 comment placements (output compared modulo whitespace). " +
+		Rule: "exhaustive: every string of length <= 6 (thorough 8) over {a < > space tab CR LF é} as a text run, neighbour pair rotating over 16 left x 12 right neighbour kinds (five / two of them blocks that are not rendered and begin or end with a comment); every string of " +
+			"length <= 4 (thorough 5) between every neighbour pair; seeded longer runs with 中 and 😀; 25 comment placements (output compared modulo whitespace). " +
 			"Oracle: the line-joining rule (ref.RawText). A case is a batch of 200 templates compiled together. distinct = distinct (text run, neighbour pair); non-trivial = run contains whitespace",
 		N: func(tier string) int {
 			ex, pf, rnd := c15Sizes(tier)
